@@ -37,6 +37,37 @@ def _transformation(variant):
     return SetDefaultColorStyleTransformation(fg="#aaaaaa", bg="#222244")
 
 
+_SHAPES = {}
+
+
+def shape_enum(code):
+    """escape parameter n of ESC[n q -> CursorShape member (0 -> _NEVER_CHANGE); the table is
+    read off the real Vt100_Output.set_cursor_shape, fail closed"""
+    if not _SHAPES:
+        from prompt_toolkit.cursor_shapes import CursorShape
+        from prompt_toolkit.data_structures import Size
+        from prompt_toolkit.output.vt100 import Vt100_Output
+        import re as _re
+        for member in CursorShape:
+            buf = io.StringIO()
+            out = Vt100_Output(buf, lambda: Size(rows=24, columns=80), term="xterm")
+            out.set_cursor_shape(member)
+            out.flush()
+            txt = buf.getvalue()
+            if txt == "":
+                if member.name != "_NEVER_CHANGE":
+                    raise AssertionError("cursor shape %r emits nothing" % member)
+                _SHAPES[0] = member
+                continue
+            m = _re.fullmatch(r"\x1b\[([1-6]) q", txt)
+            if not m or int(m.group(1)) in _SHAPES:
+                raise AssertionError("unexpected cursor shape sequence %r for %r" % (txt, member))
+            _SHAPES[int(m.group(1))] = member
+        if sorted(_SHAPES) != [0, 1, 2, 3, 4, 5, 6]:
+            raise AssertionError("cursor shape table %r" % sorted(_SHAPES))
+    return _SHAPES[code]
+
+
 def _depth(bits):
     from prompt_toolkit.output import ColorDepth
     return getattr(ColorDepth, DEPTHS[bits])
@@ -91,10 +122,20 @@ class Driver:
         self.transf = {}
         self.layout = types.SimpleNamespace(container=self.container, current_window=self.container.window,
                                             visible_windows=[])
+        from prompt_toolkit.filters import Condition
+        self.mouse = False
+        self.shape = 0
+        drv = self
+
+        class _Cursor:
+            def get_cursor_shape(self, app):
+                return shape_enum(drv.shape)
+
         self.app = types.SimpleNamespace(layout=self.layout, style_transformation=self.transformation(0),
-                                         color_depth=_depth(8), exit_style="", cursor=SimpleCursorShapeConfig())
+                                         color_depth=_depth(8), exit_style="", cursor=_Cursor())
         self.renderer = Renderer(self.style(spec["cfgs"][0][0]) if spec["cfgs"] else self.style(0),
-                                 self.output, full_screen=bool(spec["fs"]))
+                                 self.output, full_screen=bool(spec["fs"]),
+                                 mouse_support=Condition(lambda: drv.mouse))
 
     def style(self, v):
         if v not in self.styles:
@@ -121,6 +162,8 @@ class Driver:
             self.app.style_transformation = self.transformation(tv)
             self.app.color_depth = _depth(bits)
             self.container.scr = scr
+            self.mouse = bool(scr.get("mouse", 0))
+            self.shape = int(scr.get("shape", 0))
             self.renderer.render(self.app, self.layout, is_done=bool(done))
         elif op[0] == "erase":
             self.renderer.erase()
@@ -191,7 +234,8 @@ def case_sx(spec, pens):
     for op in spec["ops"]:
         if op[0] == "render":
             _, cfg, done, W, H, scr = op
-            ops.append([0, cfg, 1 if done else 0, W, H, screen_sx(scr, sids, get_cwidth)])
+            ops.append([0, cfg, 1 if done else 0, W, H, screen_sx(scr, sids, get_cwidth),
+                        1 if scr.get("mouse", 0) else 0, int(scr.get("shape", 0))])
         elif op[0] == "erase":
             ops.append([1])
         else:
